@@ -40,7 +40,7 @@ structure St where
   traps : Nat → Trap
   suspendAll : Bool
   run : Bool
-  /-- handler tag of every `gosub_stack` frame, top first (`none` = plain GOSUB or stale handler) -/
+  /-- handler tag of every `gosub_stack` frame, top first (`none` = plain GOSUB) -/
   stack : List (Option Nat)
 
 /-- a fresh session: `BasicEvents.reset()`, direct mode -/
@@ -70,7 +70,8 @@ inductive Ev where
   | cont
   /-- RUN: `clear_stacks_and_pointers`, `_clear_all` → `BasicEvents.reset()`, run mode -/
   | runCmd
-  /-- CLEAR: `BasicEvents.reset()` creates fresh handler objects (the tags on the gosub stack go stale) -/
+  /-- CLEAR: `Interpreter.clear`: `BasicEvents.reset()` (fresh handlers, suspension off) and the GOSUB
+      stack is dropped (`gosub_stack = []`), the run mode stays -/
   | clear
 deriving DecidableEq, Repr
 
@@ -113,8 +114,7 @@ def step (s : St) : Ev → St × List Nat
   | .endProg => ({ s with run := false }, [])
   | .cont => ({ s with run := true }, [])
   | .runCmd => ({ traps := fun _ => {}, suspendAll := false, run := true, stack := [] }, [])
-  | .clear => ({ traps := fun _ => {}, suspendAll := false, run := s.run,
-                 stack := s.stack.map (fun _ => none) }, [])
+  | .clear => ({ traps := fun _ => {}, suspendAll := false, run := s.run, stack := [] }, [])
 
 /-- state before step `k` of an (infinite, arbitrary) schedule, from a fresh session -/
 def stateAt (sched : Nat → Ev) : Nat → St
@@ -192,8 +192,7 @@ def sstep (s : SSt) : Ev → SSt × List Nat
   | .endProg => ({ s with run := false }, [])
   | .cont => ({ s with run := true }, [])
   | .runCmd => ({ traps := fun _ => {}, errActive := false, run := true, stack := [] }, [])
-  | .clear => ({ traps := fun _ => {}, errActive := false, run := s.run,
-                 stack := s.stack.map (fun _ => none) }, [])
+  | .clear => ({ traps := fun _ => {}, errActive := false, run := s.run, stack := [] }, [])
 
 def sstateAt (sched : Nat → Ev) : Nat → SSt
   | 0 => SSt.init
@@ -288,7 +287,7 @@ def exec (p : Prog) (v : Vm) : Stmt → Vm
     | none => raiseTo p { v with onErr := false }
     | some r => { applyEv v .resume with inErr := false, errResume := none, pc := r + 1 }
   | .end_ => applyEv { v with inErr := false, errResume := none, halted := true } .endProg
-  | .clear => next (applyEv { v with onErr := false, inErr := false, errResume := none } .clear)
+  | .clear => next (applyEv { v with onErr := false, inErr := false, errResume := none, rstack := [] } .clear)
 
 /-- enter the handlers of the traps fired by one dispatch: each `jump_sub` saves the CURRENT position,
     which for the second and later ones is the start of the previously entered handler -/
